@@ -1,22 +1,26 @@
 /-
 C18 — The TCP client is connected exactly between connect and disconnect.
-PARTIAL: the model is the client's bookkeeping (flag, the socket its writer refers to, sockets it opened and has not
+PARTIAL: the model is the client's bookkeeping (flag, the socket its writer refers to, sockets it opened and that are not
 closed); that closing the writer makes the device see end-of-stream and that a refused connect raises are runtime
 facts observed by the correspondence harness on real loopback TCP, not proved.
+
+`reclaim` is the one runtime behaviour the socket count depends on: what happens to the socket of a connection the client
+connects OVER without disconnecting (see `Model.clientConnect`).  Every theorem holds for both values, except
+`sockets_exactly_all`, which needs `reclaim = true` (the runtime of this sandbox; observed by the harness) and in
+exchange drops the hypothesis "no connect while connected".
 -/
 import Switcher.Model.Life
 namespace Props.C18
 open Model
 
-/-- no `connect` while connected (the hypothesis under which at most one socket is open; C18 speaks of "the next
-    disconnect" only) -/
-def NoDoubleConnect : ClientState → List ClientAct → Prop
+/-- no `connect` while connected -/
+def NoDoubleConnect (r : Bool) : ClientState → List ClientAct → Prop
   | _, [] => True
   | s, a :: as =>
     (match a with
      | .connectOk => s.connected = false
      | .withBody _ => s.connected = false
-     | _ => True) ∧ NoDoubleConnect (clientStep s a).1 as
+     | _ => True) ∧ NoDoubleConnect r (clientStep r s a).1 as
 
 /-- the flag: true exactly when the last of {successful connect, disconnect / leaving the context} was a successful connect -/
 def lastSays : List ClientAct → Bool → Bool
@@ -26,8 +30,8 @@ def lastSays : List ClientAct → Bool → Bool
   | .withBody _ :: as, _ => lastSays as false
   | _ :: as, b => lastSays as b
 
-theorem connected_iff (s : ClientState) (as : List ClientAct) :
-    (clientRunActs s as).1.connected = lastSays as s.connected := by
+theorem connected_iff (r : Bool) (s : ClientState) (as : List ClientAct) :
+    (clientRunActs r s as).1.connected = lastSays as s.connected := by
   induction as generalizing s with
   | nil => rfl
   | cons a as ih =>
@@ -35,9 +39,10 @@ theorem connected_iff (s : ClientState) (as : List ClientAct) :
     rw [ih]
     cases a <;> simp [clientStep, lastSays, clientConnect, clientDisconnect] <;> (try (cases s.current <;> rfl))
 
-/-- 'connected' is true exactly between a successful connect and the next disconnect, for EVERY action sequence -/
-theorem connected_exactly (as : List ClientAct) : (clientRunActs clientInit as).1.connected = lastSays as false :=
-  connected_iff clientInit as
+/-- 'connected' is true exactly between a successful connect and the next disconnect, for EVERY action sequence
+    (connects over an open connection, refused connects, failing operations and body exceptions included) -/
+theorem connected_exactly (r : Bool) (as : List ClientAct) : (clientRunActs r clientInit as).1.connected = lastSays as false :=
+  connected_iff r clientInit as
 
 /-- the invariant: the socket the writer refers to is the only one that may be open, and while connected it is open -/
 def Inv (s : ClientState) : Prop :=
@@ -46,16 +51,33 @@ def Inv (s : ClientState) : Prop :=
 
 theorem inv_init : Inv clientInit := by simp [Inv, clientInit]
 
-theorem inv_step (s : ClientState) (a : ClientAct) (h : Inv s)
-    (hno : (match a with | .connectOk => s.connected = false | .withBody _ => s.connected = false | _ => True)) :
-    Inv (clientStep s a).1 := by
+/-- what a connect leaves open, given the invariant: exactly the new socket -/
+theorem connect_open (r : Bool) (s : ClientState) (h : Inv s) (hno : r = true ∨ s.connected = false) :
+    (clientConnect r s).openSocks = [s.next] := by
+  obtain ⟨_, _, h3, h4⟩ := h
+  cases hc : s.connected with
+  | false => simp [clientConnect, h4 hc]
+  | true =>
+    obtain ⟨k, hk, ho⟩ := h3 hc
+    cases hno with
+    | inl hr => subst hr; simp [clientConnect, ho, hk]
+    | inr hf => rw [hc] at hf; cases hf
+
+theorem inv_step (r : Bool) (s : ClientState) (a : ClientAct) (h : Inv s)
+    (hno : r = true ∨ (match a with | .connectOk => s.connected = false | .withBody _ => s.connected = false | _ => True)) :
+    Inv (clientStep r s a).1 := by
+  have h' := h
   obtain ⟨h1, h2, h3, h4⟩ := h
   cases a with
   | connectOk =>
-    simp only [] at hno
-    have := h4 hno
-    simp only [clientStep, clientConnect, Inv, this]
-    refine ⟨by simp, by intro k hk; cases hk; omega, fun _ => ⟨s.next, rfl, rfl⟩, by simp⟩
+    have ho := connect_open r s h' (by cases hno with | inl x => exact .inl x | inr x => exact .inr x)
+    refine ⟨?_, ?_, ?_, ?_⟩
+    · intro k hk
+      have hk' : k ∈ (clientConnect r s).openSocks := hk
+      rw [ho] at hk'; simp at hk'; subst hk'; simp [clientStep, clientConnect]
+    · intro k hk; simp [clientStep, clientConnect] at hk; subst hk; simp [clientStep, clientConnect]
+    · intro _; exact ⟨s.next, by simp [clientStep, clientConnect], by simp only [clientStep]; exact ho⟩
+    · intro hf; simp [clientStep, clientConnect] at hf
   | connectRefused => exact ⟨h1, h2, h3, h4⟩
   | opOk => exact ⟨h1, h2, h3, h4⟩
   | opRaises => exact ⟨h1, h2, h3, h4⟩
@@ -81,56 +103,76 @@ theorem inv_step (s : ClientState) (a : ClientAct) (h : Inv s)
         obtain ⟨k', hk', ho⟩ := h3 hcon
         rw [hc] at hk'; cases hk'
         rw [ho]; simp
-  | withBody r =>
-    simp only [] at hno
-    have := h4 hno
-    simp only [clientStep, clientConnect, clientDisconnect, Inv, this]
-    refine ⟨by simp, by intro k hk; cases hk; omega, by simp, by simp⟩
+  | withBody b =>
+    have ho := connect_open r s h' (by cases hno with | inl x => exact .inl x | inr x => exact .inr x)
+    have hcur : (clientConnect r s).current = some s.next := by simp [clientConnect]
+    simp only [clientStep, clientDisconnect, hcur, ho]
+    refine ⟨by simp, ?_, by simp, by simp⟩
+    intro k hk; simp at hk; subst hk; simp [clientConnect]
 
-/-- under "no connect while connected": after every action sequence the client has exactly one open socket while connected
-    and none otherwise — disconnect (explicit, or by leaving the async context, also through an exception in the body) has
-    closed the socket -/
-theorem sockets_exactly (as : List ClientAct) (s : ClientState) (hi : Inv s) (hno : NoDoubleConnect s as) :
-    Inv (clientRunActs s as).1 := by
+/-- under "no connect while connected", on ANY runtime: after every action sequence the client has exactly one open socket
+    while connected and none otherwise — disconnect (explicit, or by leaving the async context, also through an exception in
+    the body) has closed the socket -/
+theorem sockets_exactly (r : Bool) (as : List ClientAct) (s : ClientState) (hi : Inv s) (hno : NoDoubleConnect r s as) :
+    Inv (clientRunActs r s as).1 := by
   induction as generalizing s with
   | nil => exact hi
   | cons a as ih =>
     simp only [clientRunActs]
-    exact ih _ (inv_step s a hi hno.1) hno.2
+    exact ih _ (inv_step r s a hi (.inr hno.1)) hno.2
 
-theorem open_count (as : List ClientAct) (hno : NoDoubleConnect clientInit as) :
-    ((clientRunActs clientInit as).1.openSocks.length = if (clientRunActs clientInit as).1.connected then 1 else 0) := by
-  obtain ⟨_, _, h3, h4⟩ := sockets_exactly as clientInit inv_init hno
-  cases hc : (clientRunActs clientInit as).1.connected with
+/-- on a runtime that reclaims connections the client connected over: the same for EVERY action sequence, no hypothesis -/
+theorem sockets_exactly_all (as : List ClientAct) (s : ClientState) (hi : Inv s) : Inv (clientRunActs true s as).1 := by
+  induction as generalizing s with
+  | nil => exact hi
+  | cons a as ih =>
+    simp only [clientRunActs]
+    exact ih _ (inv_step true s a hi (.inl rfl))
+
+theorem count_of_inv (s : ClientState) (h : Inv s) : s.openSocks.length = if s.connected then 1 else 0 := by
+  obtain ⟨_, _, h3, h4⟩ := h
+  cases hc : s.connected with
   | true => obtain ⟨k, _, ho⟩ := h3 hc; simp [ho]
   | false => simp [h4 hc]
 
+theorem open_count (r : Bool) (as : List ClientAct) (hno : NoDoubleConnect r clientInit as) :
+    ((clientRunActs r clientInit as).1.openSocks.length = if (clientRunActs r clientInit as).1.connected then 1 else 0) :=
+  count_of_inv _ (sockets_exactly r as clientInit inv_init hno)
+
+theorem open_count_all (as : List ClientAct) :
+    ((clientRunActs true clientInit as).1.openSocks.length = if (clientRunActs true clientInit as).1.connected then 1 else 0) :=
+  count_of_inv _ (sockets_exactly_all as clientInit inv_init)
+
 /-- disconnect closes the socket of the current connection -/
-theorem disconnect_closes (s : ClientState) (k : Nat) (hc : s.current = some k) : k ∉ (clientStep s .disconnect).1.openSocks := by
+theorem disconnect_closes (r : Bool) (s : ClientState) (k : Nat) (hc : s.current = some k) : k ∉ (clientStep r s .disconnect).1.openSocks := by
   simp [clientStep, clientDisconnect, hc]
 
 /-- leaving the async context closes the socket it opened, also when the body raised -/
-theorem context_closes (s : ClientState) (r : Bool) : s.next ∉ (clientStep s (.withBody r)).1.openSocks ∧
-    (clientStep s (.withBody r)).1.connected = false := by
+theorem context_closes (r : Bool) (s : ClientState) (b : Bool) : s.next ∉ (clientStep r s (.withBody b)).1.openSocks ∧
+    (clientStep r s (.withBody b)).1.connected = false := by
   simp [clientStep, clientDisconnect, clientConnect]
 
 /-- disconnect before connect, or twice, is harmless -/
-theorem disconnect_first : clientStep clientInit .disconnect = (clientInit, .ok) := by decide
-theorem disconnect_twice (s : ClientState) : (clientStep (clientStep s .disconnect).1 .disconnect).1 = (clientStep s .disconnect).1 := by
+theorem disconnect_first (r : Bool) : clientStep r clientInit .disconnect = (clientInit, .ok) := by cases r <;> decide
+theorem disconnect_twice (r : Bool) (s : ClientState) :
+    (clientStep r (clientStep r s .disconnect).1 .disconnect).1 = (clientStep r s .disconnect).1 := by
   simp only [clientStep, clientDisconnect]
   cases s.current <;> simp [List.filter_filter]
 
 /-- a refused connection raises and leaves the client as it was (disconnected if it was) -/
-theorem refused_connect (s : ClientState) : clientStep s .connectRefused = (s, .raiseOSError) := rfl
+theorem refused_connect (r : Bool) (s : ClientState) : clientStep r s .connectRefused = (s, .raiseOSError) := rfl
 
 /-- the client can connect again afterwards -/
-theorem reconnect (s : ClientState) : (clientStep (clientStep s .disconnect).1 .connectOk).1.connected = true := by
+theorem reconnect (r : Bool) (s : ClientState) : (clientStep r (clientStep r s .disconnect).1 .connectOk).1.connected = true := by
   simp [clientStep, clientConnect]
 
 /-- an operation (successful or raising) never changes the connection state -/
-theorem op_keeps_state (s : ClientState) : (clientStep s .opOk).1 = s ∧ (clientStep s .opRaises).1 = s := ⟨rfl, rfl⟩
+theorem op_keeps_state (r : Bool) (s : ClientState) : (clientStep r s .opOk).1 = s ∧ (clientStep r s .opRaises).1 = s := ⟨rfl, rfl⟩
 
-example : (clientRunActs clientInit [.disconnect, .connectRefused, .connectOk, .opRaises, .disconnect, .disconnect, .withBody true, .connectOk]).1
+example : (clientRunActs true clientInit [.disconnect, .connectRefused, .connectOk, .opRaises, .disconnect, .disconnect, .withBody true, .connectOk]).1
     = { connected := true, current := some 2, openSocks := [2], next := 3 } := by decide
+/- connecting over an open connection: what is left open depends on the runtime -/
+example : (clientRunActs true clientInit [.connectOk, .connectOk, .disconnect]).1.openSocks = [] := by decide
+example : (clientRunActs false clientInit [.connectOk, .connectOk, .disconnect]).1.openSocks = [0] := by decide
 
 end Props.C18
